@@ -641,11 +641,37 @@ func (c *Ctx) ruleR10d(rule string) {
 		}
 		mc, ok := set.Call.Args[1].(*ssa.MakeClosure)
 		if !ok {
-			c.R.Undecided(rule, name+" mover", name, c.P.InstrPos(set), "the position mover is not a closure literal")
+			c.R.Undecided(rule, name+" mover", name, c.P.InstrPos(set), "the position mover is not a closure literal or a method value")
 			continue
 		}
+		// the mover: a closure literal, or a method value (bound-method wrapper around a method of a helper object)
 		g := mc.Fn.(*ssa.Function)
-		okMove := len(g.Params) == 1
+		var recv *ssa.Parameter // receiver of the method behind a method value
+		if g.Synthetic != "" && len(mc.Bindings) == 1 {
+			var m *ssa.Function
+			for _, call := range ssax.Calls(g) {
+				if sc := call.Common().StaticCallee(); sc != nil && c.P.InLib(sc) && sc.Signature.Recv() != nil {
+					m = sc
+				}
+			}
+			if m == nil || len(m.Params) != 2 {
+				c.R.Undecided(rule, name+" mover", name, c.P.InstrPos(set), "the method value handed to ast.SetReaderPos could not be resolved to a library method")
+				continue
+			}
+			g, recv = m, m.Params[0]
+		}
+		isConfig := func(v ssa.Value) bool {
+			if _, cap := freeVarLoad(v); cap {
+				return true
+			}
+			if base, _, isLoad := fieldLoad(ssax.Strip(v)); isLoad && recv != nil && base == ssa.Value(recv) {
+				return true
+			}
+			return false
+		}
+		posParam := g.Params[len(g.Params)-1]
+		okMove := len(g.Params) == 1 && recv == nil || len(g.Params) == 2 && recv != nil
+		var swCall *ssa.Call
 		for _, r := range ssax.Returns(g) {
 			e, isE := ssax.Strip(r.Results[0]).(*ssa.Extract)
 			if !isE || e.Index != 0 {
@@ -653,30 +679,66 @@ func (c *Ctx) ruleR10d(rule string) {
 				continue
 			}
 			cl, isC := e.Tuple.(*ssa.Call)
-			if !isC || cl.Call.StaticCallee() != sw || len(cl.Call.Args) != 3 || cl.Call.Args[1] != ssa.Value(g.Params[0]) {
+			if !isC || cl.Call.StaticCallee() != sw || len(cl.Call.Args) != 3 || cl.Call.Args[1] != ssa.Value(posParam) {
 				okMove = false
 				continue
 			}
-			if _, cap := freeVarLoad(cl.Call.Args[2]); !cap {
+			if !isConfig(cl.Call.Args[2]) {
 				okMove = false
 			}
+			swCall = cl
 		}
 		if okMove {
 			c.R.Hold(rule, name+" mover "+c.name(g), "returns SkipWhitespaces(p, wsMode).pos of its own argument p")
 		} else {
 			c.R.Violation(rule, name+" mover", c.name(g), c.P.Pos(g.Pos()), "the function handed to ast.SetReaderPos does not return SkipWhitespaces(p, wsMode) of ITS OWN argument p: alternatives that end at different positions all receive one end, so every alternative after the first gets the wrong end")
 		}
+		// where the mover records the whitespace error: a captured variable, or a field of the helper object
+		var errLoc ssa.Value // in fn's terms
+		errField := -1
+		if swCall != nil {
+			for _, e := range ssax.Extracts(swCall, 1) {
+				if e.Referrers() == nil {
+					continue
+				}
+				for _, r := range *e.Referrers() {
+					st, ok := r.(*ssa.Store)
+					if !ok || st.Val != ssa.Value(e) {
+						continue
+					}
+					switch a := st.Addr.(type) {
+					case *ssa.FreeVar:
+						for i, fv := range g.FreeVars {
+							if fv == a && i < len(mc.Bindings) {
+								errLoc = mc.Bindings[i]
+							}
+						}
+					case *ssa.FieldAddr:
+						if recv != nil && a.X == ssa.Value(recv) {
+							errLoc, errField = mc.Bindings[0], a.Field
+						}
+					}
+				}
+			}
+		}
+		isErrLoad := func(v ssa.Value) bool {
+			u, ok := ssax.Strip(v).(*ssa.UnOp)
+			if !ok || u.Op != token.MUL || errLoc == nil {
+				return false
+			}
+			if errField < 0 {
+				return u.X == errLoc
+			}
+			fa, ok := u.X.(*ssa.FieldAddr)
+			return ok && fa.X == errLoc && fa.Field == errField
+		}
 		// on a whitespace error: (nil, _, wsErr)
 		okErr := false
 		for _, r := range ssax.Returns(fn) {
-			if len(r.Results) == 3 && ssax.IsNilConst(ssax.Strip(r.Results[0])) {
-				if _, isLoad := freeVarOrAllocLoad(r.Results[2]); isLoad {
-					for _, cd := range ssax.DominatingConds(r.Block()) {
-						if x, nilIfTrue, isNT := nilTest(cd.Val); isNT && cd.Truth != nilIfTrue {
-							if _, isL := freeVarOrAllocLoad(x); isL {
-								okErr = true
-							}
-						}
+			if len(r.Results) == 3 && ssax.IsNilConst(ssax.Strip(r.Results[0])) && isErrLoad(r.Results[2]) {
+				for _, cd := range ssax.DominatingConds(r.Block()) {
+					if x, nilIfTrue, isNT := nilTest(cd.Val); isNT && cd.Truth != nilIfTrue && isErrLoad(x) {
+						okErr = true
 					}
 				}
 			}
